@@ -43,17 +43,18 @@ func envOr(k, d string) string {
 }
 
 type entrySpec struct {
-	Name     string
-	File     string
-	PkgDir   string
-	Tiers    map[string]bool
-	Conf     int // number of conformance vectors
-	Depth    int
-	Steps    int64
-	Workers  int
-	MaxPaths int
-	NoReplay bool // counterexamples cannot be replayed natively (contract stubs)
-	NoConc   bool // summaries stay symbolic (no forking over their paths)
+	Name       string
+	File       string
+	PkgDir     string
+	Tiers      map[string]bool
+	Conf       int // number of conformance vectors
+	Depth      int
+	Steps      int64
+	Workers    int
+	MaxPaths   int
+	NoReplay   bool // counterexamples cannot be replayed natively (contract stubs)
+	GoDeferred bool // go=deferred: spawned goroutines run at the next WaitGroup.Wait
+	NoConc     bool // summaries stay symbolic (no forking over their paths)
 }
 
 type harnessFile struct {
@@ -121,6 +122,8 @@ func parseHarness(path string) (*harnessFile, error) {
 					e.NoReplay = p[1] == "no"
 				case "conc":
 					e.NoConc = p[1] == "no"
+				case "go":
+					e.GoDeferred = p[1] == "deferred"
 				}
 			}
 			hf.Entries = append(hf.Entries, e)
@@ -500,6 +503,7 @@ func cmdCheck(args []string) int {
 				cfg.MaxPaths = e.MaxPaths
 			}
 			cfg.NoSummConc = e.NoConc
+			cfg.GoDeferred = e.GoDeferred
 			if *maxpaths > 0 {
 				cfg.MaxPaths = *maxpaths
 			}
@@ -594,6 +598,7 @@ func cmdCheck(args []string) int {
 					if e.Steps > 0 {
 						cfg.MaxSteps = e.Steps
 					}
+					cfg.GoDeferred = e.GoDeferred
 					ld.apply(e.File)
 					obs, viol, note := interp.RunConcrete(ld.sh, cfg, ld.entries[e.Name], interp.RandomInputs(s), true)
 					var eng []string
